@@ -302,12 +302,12 @@ Proof.
 Qed.
 
 Lemma bytes_ok md bs e s1 l1 b l' :
-  At bs s1 l1 -> payload_view (PBytes b) l1 l' -> len b <? two32 = true ->
+  At bs s1 l1 -> payload_view (PBytes b) l1 l' -> len b <? ref_two32 = true ->
   len bs - len l' <= e -> e < two64 ->
   exists s', read_bytes md bs s1 e = XOk b s' /\ At bs s' l'.
 Proof.
   intros HAt Hv Hb He He64. unfold read_bytes.
-  assert (Hb' : len b < 2 ^ 32) by (unfold two32 in Hb; lia). clear Hb.
+  assert (Hb' : len b < 2 ^ 32) by (unfold ref_two32 in Hb; lia). clear Hb.
   eapply len_varint_ok; try eassumption.
   intros s2 HAt2. rewrite (get_range_At _ _ _ _ HAt2). eexists. reflexivity.
 Qed.
@@ -394,9 +394,9 @@ End Loop.
 (* ------------------------------------------------------------------------------------------ *)
 (* Part F: the five generated readers refine the reference decoder                            *)
 
-Lemma bool32 v : v <? two32 = true -> negb (v mod 2 ^ 32 =? 0) = ref_bool v.
+Lemma bool32 v : v <? ref_two32 = true -> negb (v mod 2 ^ 32 =? 0) = ref_bool v.
 Proof.
-  unfold two32, ref_bool. intros H. rewrite N.mod_small by lia. reflexivity.
+  unfold ref_two32, ref_bool. intros H. rewrite N.mod_small by lia. reflexivity.
 Qed.
 
 Lemma want_type_conv v : want_type_of_i32 (v mod 2 ^ 32) = ref_want_type v.
@@ -570,14 +570,14 @@ Qed.
 
 (* a nested message field *)
 Lemma nested_ok {A B} md bs e (from_reader : N -> N -> xres A) (F : A -> B) s1 l1 b l' x :
-  At bs s1 l1 -> payload_view (PBytes b) l1 l' -> len b <? two32 = true ->
+  At bs s1 l1 -> payload_view (PBytes b) l1 l' -> len b <? ref_two32 = true ->
   len bs - len l' <= e -> e < two64 ->
   (forall s2, At bs s2 (b ++ l') -> s2 + len b < two64 -> from_reader s2 (s2 + len b) = XOk x (s2 + len b)) ->
   exists s', xmap F (read_message md bs from_reader s1 e) = XOk (F x) s' /\ At bs s' l'.
 Proof.
   intros HAt Hv Hb He He64 Hfr. unfold read_message.
   destruct (len_varint_ok md bs e from_reader s1 l1 b l' x HAt Hv) as (s' & Hr & HAt'); try assumption.
-  - unfold two32 in Hb. lia.
+  - unfold ref_two32 in Hb. lia.
   - intros s2 HAt2. exists (s2 + len b). apply Hfr; [assumption|].
     apply At_len in HAt2. rewrite len_app in HAt2. lia.
   - exists s'. rewrite Hr. cbn [xmap xbind]. auto.
@@ -774,3 +774,523 @@ Lemma in_class_not_overrun w m tail :
 Proof.
   intros Href Hcl. unfold overrun_b. rewrite (Qp_refines_Ref MInstr w m tail Href Hcl). reflexivity.
 Qed.
+
+(* ------------------------------------------------------------------------------------------ *)
+(* Part G: what the generated writers emit, seen by the reference decoder                     *)
+
+Lemma ref_token_varint t f v rest :
+  t = 8 * f -> 1 <= f -> t < 2 ^ 32 -> v < 2 ^ 64 ->
+  ref_token (qp_with_tag t (qp_write_varint v) ++ rest) = Some ((f, PVarint v), rest).
+Proof.
+  intros Ht Hf Ht32 Hv. unfold qp_with_tag, qp_write_tag, ref_token. rewrite <- !app_assoc.
+  assert (Ht64 : t < 2 ^ 64).
+  { change (2 ^ 32) with 4294967296 in Ht32. change (2 ^ 64) with 18446744073709551616. lia. }
+  rewrite ref_varint_write by assumption.
+  destruct ((t <? 2 ^ 32) && (1 <=? t / 8)) eqn:E; [|lia].
+  destruct (t mod 8 =? 0) eqn:E0; [|lia].
+  rewrite ref_varint_write by assumption.
+  replace (t / 8) with f by lia. reflexivity.
+Qed.
+
+Lemma ref_token_bytes t f b rest :
+  t = 8 * f + 2 -> 1 <= f -> t < 2 ^ 32 -> len b < 2 ^ 64 ->
+  ref_token (qp_with_tag t (qp_write_varint (len b) ++ b) ++ rest) = Some ((f, PBytes b), rest).
+Proof.
+  intros Ht Hf Ht32 Hv. unfold qp_with_tag, qp_write_tag, ref_token. rewrite <- !app_assoc.
+  assert (Ht64 : t < 2 ^ 64).
+  { change (2 ^ 32) with 4294967296 in Ht32. change (2 ^ 64) with 18446744073709551616. lia. }
+  rewrite ref_varint_write by assumption.
+  destruct ((t <? 2 ^ 32) && (1 <=? t / 8)) eqn:E; [|lia].
+  destruct (t mod 8 =? 0) eqn:E0; [lia|].
+  destruct (t mod 8 =? 1) eqn:E1; [lia|].
+  destruct (t mod 8 =? 2) eqn:E2; [|lia].
+  rewrite ref_varint_write by assumption. rewrite take_exact.
+  replace (t / 8) with f by lia. reflexivity.
+Qed.
+
+Lemma sext32_range v : v < 2 ^ 32 -> sext32 v < 2 ^ 64.
+Proof.
+  unfold sext32. change (2 ^ 31) with 2147483648. change (2 ^ 32) with 4294967296.
+  change (2 ^ 64) with 18446744073709551616. intros H. destruct (v <? 2147483648); lia.
+Qed.
+
+Lemma ref_int32_sext v : v < 2 ^ 32 -> ref_int32 (sext32 v) = v.
+Proof.
+  unfold ref_int32, sext32. change (2 ^ 31) with 2147483648. change (2 ^ 32) with 4294967296.
+  change (2 ^ 64) with 18446744073709551616. intros H. destruct (v <? 2147483648); lia.
+Qed.
+
+Lemma fold_opt_app {M} (step : M -> token -> option M) a b m :
+  fold_opt step (a ++ b) m = match fold_opt step a m with Some m' => fold_opt step b m' | None => None end.
+Proof.
+  revert m; induction a as [|t a IH]; intros m; cbn [app fold_opt]; [reflexivity|].
+  destruct (step m t); [apply IH|reflexivity].
+Qed.
+
+Lemma two32_lt_64 x : x < two32 -> x < 2 ^ 64.
+Proof.
+  unfold two32. change (2 ^ 32) with 4294967296. change (2 ^ 64) with 18446744073709551616. lia.
+Qed.
+
+(* a length-delimited field is shorter than the message that holds it *)
+Lemma sizeof_len_ge l : l <= sizeof_len l.
+Proof. unfold sizeof_len. lia. Qed.
+
+(* --- Entry --- *)
+Definition tokens_entry (e : entry) : list token :=
+  (if negb (is_nil (e_block e)) then [(1, PBytes (e_block e))] else [])
+  ++ (if negb (e_priority e =? 0) then [(2, PVarint (sext32 (e_priority e)))] else [])
+  ++ (if e_cancel e then [(3, PVarint 1)] else [])
+  ++ (if negb (want_type_eqb (e_want_type e) WTBlock)
+      then [(4, PVarint (sext32 (want_type_code (e_want_type e))))] else [])
+  ++ (if e_send_dont_have e then [(5, PVarint 1)] else []).
+
+Lemma entry_block_len e : len (e_block e) <= size_entry e.
+Proof.
+  unfold size_entry. pose proof (sizeof_len_ge (len (e_block e))).
+  destruct (is_nil (e_block e)) eqn:E; [|lia].
+  apply is_nil_len in E. rewrite E. change (len []) with 0. lia.
+Qed.
+
+Ltac tok_varint f := eapply Toks_cons; [apply (ref_token_varint _ f); [reflexivity|lia|reflexivity| ]|].
+Ltac tok_bytes f := eapply Toks_cons; [apply (ref_token_bytes _ f); [reflexivity|lia|reflexivity| ]|].
+
+Lemma Toks_entry e : e_priority e < two32 -> size_entry e < two32 -> Toks (write_entry e) (tokens_entry e).
+Proof.
+  intros Hp Hs. pose proof (entry_block_len e) as Hb.
+  assert (Hb64 : len (e_block e) < 2 ^ 64) by (apply two32_lt_64; lia).
+  rewrite <- (app_nil_r (write_entry e)).
+  unfold write_entry, tokens_entry.
+  unfold qp_write_bytes, qp_write_enum, qp_write_int32. rewrite <- !app_assoc.
+  destruct (negb (is_nil (e_block e))); cbn [app].
+  all: destruct (negb (e_priority e =? 0)); cbn [app].
+  all: destruct (e_cancel e); cbn [app].
+  all: destruct (e_want_type e); cbn [negb want_type_eqb want_type_code app].
+  all: destruct (e_send_dont_have e); cbn [app].
+  all: change (qp_write_bool true) with (qp_write_varint 1).
+  all: repeat first
+         [ apply Toks_nil
+         | tok_bytes 1; [assumption|]
+         | tok_varint 2; [apply sext32_range; exact Hp|]
+         | tok_varint 3; [reflexivity|]
+         | tok_varint 4; [reflexivity|]
+         | tok_varint 5; [reflexivity|] ].
+Qed.
+
+Lemma fold_entry e : e_priority e < two32 -> fold_opt ref_entry_step (tokens_entry e) default_entry = Some e.
+Proof.
+  destruct e as [blk pri can wt sdh]. cbn [e_priority]. intros Hp. unfold tokens_entry.
+  cbn [e_block e_priority e_cancel e_want_type e_send_dont_have].
+  assert (Hpri : ref_int32 (sext32 pri) = pri) by (apply ref_int32_sext; exact Hp).
+  destruct (is_nil blk) eqn:Eb; [apply is_nil_len in Eb; subst blk|];
+    (destruct (pri =? 0) eqn:Ep; [replace pri with 0 by lia|]);
+    destruct can; destruct wt; destruct sdh;
+    cbn [negb want_type_eqb want_type_code app fold_opt];
+    unfold ref_entry_step, default_entry;
+    repeat match goal with |- context [?a =? ?b] =>
+             match a with
+             | N0 => idtac | Npos _ => idtac
+             end;
+             let c := eval vm_compute in (a =? b) in change (a =? b) with c
+           end;
+    cbv iota; cbn [fold_opt e_block e_priority e_cancel e_want_type e_send_dont_have];
+    rewrite ?Hpri; reflexivity.
+Qed.
+
+Lemma ref_entry_write e : wf_entry e -> ref_entry (write_entry e) = Some e.
+Proof.
+  intros (_ & Hp & Hs). unfold ref_entry, ref_entry_into.
+  rewrite (Toks_tokenise _ _ (Toks_entry e Hp Hs)). apply fold_entry. exact Hp.
+Qed.
+
+Lemma ltb_two32 x : x < two32 -> x <? ref_two32 = true.
+Proof. unfold two32, ref_two32. lia. Qed.
+
+Lemma class_entry_write e : wf_entry e -> class_entry (write_entry e) = true.
+Proof.
+  intros (_ & Hp & Hs). unfold class_entry, class_tokens.
+  rewrite (Toks_tokenise _ _ (Toks_entry e Hp Hs)).
+  pose proof (entry_block_len e) as Hb.
+  assert (Hb32 : len (e_block e) <? ref_two32 = true) by (apply ltb_two32; lia).
+  unfold tokens_entry.
+  destruct (negb (is_nil (e_block e))); destruct (negb (e_priority e =? 0)); destruct (e_cancel e);
+    destruct (negb (want_type_eqb (e_want_type e) WTBlock)); destruct (e_send_dont_have e);
+    cbn [app forallb]; unfold class_entry_tok;
+    repeat match goal with |- context [?a =? ?b] =>
+             match a with N0 => idtac | Npos _ => idtac end;
+             let c := eval vm_compute in (a =? b) in change (a =? b) with c
+           end;
+    cbn [orb]; cbv iota; rewrite ?Hb32; reflexivity.
+Qed.
+
+(* --- Block --- *)
+Definition tokens_block (b : block) : list token :=
+  (if negb (is_nil (b_prefix b)) then [(1, PBytes (b_prefix b))] else [])
+  ++ (if negb (is_nil (b_data b)) then [(2, PBytes (b_data b))] else []).
+
+Lemma block_lens b : len (b_prefix b) <= size_block b /\ len (b_data b) <= size_block b.
+Proof.
+  unfold size_block.
+  pose proof (sizeof_len_ge (len (b_prefix b))). pose proof (sizeof_len_ge (len (b_data b))).
+  destruct (is_nil (b_prefix b)) eqn:E1; [apply is_nil_len in E1; rewrite E1; change (len []) with 0|];
+    (destruct (is_nil (b_data b)) eqn:E2; [apply is_nil_len in E2; rewrite E2; change (len []) with 0|]); lia.
+Qed.
+
+Lemma Toks_block b : size_block b < two32 -> Toks (write_block b) (tokens_block b).
+Proof.
+  intros Hs. destruct (block_lens b) as [H1 H2].
+  assert (H164 : len (b_prefix b) < 2 ^ 64) by (apply two32_lt_64; lia).
+  assert (H264 : len (b_data b) < 2 ^ 64) by (apply two32_lt_64; lia).
+  rewrite <- (app_nil_r (write_block b)).
+  unfold write_block, tokens_block, qp_write_bytes. rewrite <- !app_assoc.
+  destruct (negb (is_nil (b_prefix b))); cbn [app].
+  all: destruct (negb (is_nil (b_data b))); cbn [app].
+  all: repeat first [ apply Toks_nil | tok_bytes 1; [assumption|] | tok_bytes 2; [assumption|] ].
+Qed.
+
+Lemma fold_block b : fold_opt ref_block_step (tokens_block b) default_block = Some b.
+Proof.
+  destruct b as [p d]. unfold tokens_block. cbn [b_prefix b_data].
+  destruct (is_nil p) eqn:E1; [apply is_nil_len in E1; subst p|];
+    (destruct (is_nil d) eqn:E2; [apply is_nil_len in E2; subst d|]);
+    cbn [negb app fold_opt]; reflexivity.
+Qed.
+
+Lemma ref_block_write b : wf_block b -> ref_block (write_block b) = Some b.
+Proof.
+  intros (_ & _ & Hs). unfold ref_block.
+  rewrite (Toks_tokenise _ _ (Toks_block b Hs)). apply fold_block.
+Qed.
+
+Lemma class_block_write b : wf_block b -> class_block (write_block b) = true.
+Proof.
+  intros (_ & _ & Hs). unfold class_block, class_tokens.
+  rewrite (Toks_tokenise _ _ (Toks_block b Hs)).
+  destruct (block_lens b) as [H1 H2].
+  assert (H132 : len (b_prefix b) <? ref_two32 = true) by (apply ltb_two32; lia).
+  assert (H232 : len (b_data b) <? ref_two32 = true) by (apply ltb_two32; lia).
+  unfold tokens_block.
+  destruct (negb (is_nil (b_prefix b))); destruct (negb (is_nil (b_data b)));
+    cbn [app forallb]; unfold class_block_tok;
+    repeat match goal with |- context [?a =? ?b] =>
+             match a with N0 => idtac | Npos _ => idtac end;
+             let c := eval vm_compute in (a =? b) in change (a =? b) with c
+           end;
+    cbn [orb]; cbv iota; rewrite ?H132, ?H232; reflexivity.
+Qed.
+
+(* --- BlockPresence --- *)
+Definition tokens_presence (p : block_presence) : list token :=
+  (if negb (is_nil (bp_cid p)) then [(1, PBytes (bp_cid p))] else [])
+  ++ (if negb (presence_type_eqb (bp_type p) PHave)
+      then [(2, PVarint (sext32 (presence_type_code (bp_type p))))] else []).
+
+Lemma presence_len p : len (bp_cid p) <= size_presence p.
+Proof.
+  unfold size_presence. pose proof (sizeof_len_ge (len (bp_cid p))).
+  destruct (is_nil (bp_cid p)) eqn:E1; [apply is_nil_len in E1; rewrite E1; change (len []) with 0|]; lia.
+Qed.
+
+Lemma Toks_presence p : size_presence p < two32 -> Toks (write_presence p) (tokens_presence p).
+Proof.
+  intros Hs. pose proof (presence_len p) as H1.
+  assert (H164 : len (bp_cid p) < 2 ^ 64) by (apply two32_lt_64; lia).
+  rewrite <- (app_nil_r (write_presence p)).
+  unfold write_presence, tokens_presence, qp_write_bytes, qp_write_enum, qp_write_int32.
+  rewrite <- !app_assoc.
+  destruct (negb (is_nil (bp_cid p))); cbn [app].
+  all: destruct (bp_type p); cbn [negb presence_type_eqb presence_type_code app].
+  all: repeat first [ apply Toks_nil | tok_bytes 1; [assumption|] | tok_varint 2; [reflexivity|] ].
+Qed.
+
+Lemma fold_presence p : fold_opt ref_presence_step (tokens_presence p) default_presence = Some p.
+Proof.
+  destruct p as [c t]. unfold tokens_presence. cbn [bp_cid bp_type].
+  destruct (is_nil c) eqn:E1; [apply is_nil_len in E1; subst c|]; destruct t;
+    cbn [negb presence_type_eqb presence_type_code app fold_opt]; reflexivity.
+Qed.
+
+Lemma ref_presence_write p : wf_presence p -> ref_presence (write_presence p) = Some p.
+Proof.
+  intros (_ & Hs). unfold ref_presence.
+  rewrite (Toks_tokenise _ _ (Toks_presence p Hs)). apply fold_presence.
+Qed.
+
+Lemma class_presence_write p : wf_presence p -> class_presence (write_presence p) = true.
+Proof.
+  intros (_ & Hs). unfold class_presence, class_tokens.
+  rewrite (Toks_tokenise _ _ (Toks_presence p Hs)).
+  pose proof (presence_len p) as H1.
+  assert (H132 : len (bp_cid p) <? ref_two32 = true) by (apply ltb_two32; lia).
+  unfold tokens_presence.
+  destruct (negb (is_nil (bp_cid p))); destruct (negb (presence_type_eqb (bp_type p) PHave));
+    cbn [app forallb]; unfold class_presence_tok;
+    repeat match goal with |- context [?a =? ?b] =>
+             match a with N0 => idtac | Npos _ => idtac end;
+             let c := eval vm_compute in (a =? b) in change (a =? b) with c
+           end;
+    cbv iota; rewrite ?H132; reflexivity.
+Qed.
+
+(* --- repeated nested messages --- *)
+Lemma Toks_repeated {A} (f t : N) (sz : A -> N) (wr : A -> bytes) (xs : list A) rest toks :
+  t = 8 * f + 2 -> 1 <= f -> t < 2 ^ 32 ->
+  (forall x, In x xs -> sz x = len (wr x) /\ len (wr x) < 2 ^ 64) ->
+  Toks rest toks ->
+  Toks (concat (map (fun s => qp_with_tag t (qp_write_nested (sz s) (wr s))) xs) ++ rest)
+       (map (fun s => (f, PBytes (wr s))) xs ++ toks).
+Proof.
+  intros Ht Hf Ht32 Hxs Hrest. induction xs as [|x xs IH]; [exact Hrest|].
+  cbn [map concat app]. rewrite <- app_assoc.
+  destruct (Hxs x (or_introl eq_refl)) as [Hsz H64].
+  unfold qp_write_nested at 1. rewrite Hsz.
+  eapply Toks_cons.
+  - apply (ref_token_bytes t f); assumption.
+  - apply IH. intros y Hy. apply Hxs. right. assumption.
+Qed.
+
+Lemma forallb_map_toks {A} (P : token -> bool) (g : A -> token) (xs : list A) :
+  (forall x, In x xs -> P (g x) = true) -> forallb P (map g xs) = true.
+Proof.
+  intros H. rewrite forallb_forall. intros t Ht. apply in_map_iff in Ht.
+  destruct Ht as (x & <- & Hx). apply H. assumption.
+Qed.
+
+(* --- Wantlist --- *)
+Definition tokens_wantlist (w : wantlist) : list token :=
+  map (fun e => (1, PBytes (write_entry e))) (w_entries w)
+  ++ (if w_full w then [(2, PVarint 1)] else []).
+
+Lemma Toks_wantlist w : Forall wf_entry (w_entries w) -> Toks (write_wantlist w) (tokens_wantlist w).
+Proof.
+  intros Hes. unfold write_wantlist, tokens_wantlist.
+  apply (Toks_repeated 1 10 size_entry write_entry); [reflexivity|lia|reflexivity| |].
+  - intros x Hx. rewrite Forall_forall in Hes. destruct (Hes x Hx) as (_ & _ & Hs).
+    rewrite C08_encode_no_panic_entry. split; [reflexivity|]. apply two32_lt_64. assumption.
+  - destruct (w_full w).
+    + rewrite <- (app_nil_r (qp_with_tag 16 (qp_write_bool true))).
+      change (qp_write_bool true) with (qp_write_varint 1).
+      tok_varint 2; [reflexivity|]. apply Toks_nil.
+    + apply Toks_nil.
+Qed.
+
+Lemma fold_entries es : Forall wf_entry es -> forall acc fl,
+  fold_opt ref_wantlist_step (map (fun e => (1, PBytes (write_entry e))) es) (MkWantlist acc fl)
+  = Some (MkWantlist (acc ++ es) fl).
+Proof.
+  induction 1 as [|e es He Hes IH]; intros acc fl; cbn [map fold_opt].
+  - rewrite app_nil_r. reflexivity.
+  - change (ref_wantlist_step (MkWantlist acc fl) (1, PBytes (write_entry e)))
+      with (match ref_entry (write_entry e) with
+            | Some x => Some (MkWantlist (acc ++ [x]) fl) | None => None end).
+    rewrite (ref_entry_write e He). rewrite IH. rewrite <- app_assoc. reflexivity.
+Qed.
+
+Lemma ref_wantlist_write w : wf_wantlist w -> ref_wantlist (write_wantlist w) = Some w.
+Proof.
+  intros (Hes & Hs). unfold ref_wantlist, ref_wantlist_into.
+  rewrite (Toks_tokenise _ _ (Toks_wantlist w Hes)).
+  unfold tokens_wantlist. rewrite fold_opt_app. unfold default_wantlist.
+  rewrite (fold_entries _ Hes). destruct w as [es fl]. cbn [w_entries w_full app].
+  destruct fl; reflexivity.
+Qed.
+
+Lemma class_wantlist_write w : wf_wantlist w -> class_wantlist (write_wantlist w) = true.
+Proof.
+  intros (Hes & Hs). unfold class_wantlist, class_tokens.
+  rewrite (Toks_tokenise _ _ (Toks_wantlist w Hes)).
+  unfold tokens_wantlist. rewrite forallb_app. apply andb_true_iff. split.
+  - apply forallb_map_toks. intros e He. rewrite Forall_forall in Hes. pose proof (Hes e He) as Hwf.
+    change (class_wantlist_tok (1, PBytes (write_entry e)))
+      with ((len (write_entry e) <? ref_two32) && class_entry (write_entry e)).
+    rewrite (class_entry_write e Hwf). rewrite C08_encode_no_panic_entry.
+    destruct Hwf as (_ & _ & Hse). rewrite (ltb_two32 _ Hse). reflexivity.
+  - destruct (w_full w); reflexivity.
+Qed.
+
+(* --- Message --- *)
+Definition tokens_message (m : message) : list token :=
+  (match m_wantlist m with Some w => [(1, PBytes (write_wantlist w))] | None => [] end)
+  ++ map (fun b => (3, PBytes (write_block b))) (m_payload m)
+  ++ map (fun p => (4, PBytes (write_presence p))) (m_presences m)
+  ++ (if negb (m_pending_bytes m =? 0) then [(5, PVarint (sext32 (m_pending_bytes m)))] else []).
+
+Lemma Toks_message m : wf_message m -> Toks (write_message m) (tokens_message m).
+Proof.
+  intros (Hw & Hpl & Hpr & Hpb & Hsz). unfold write_message, tokens_message.
+  assert (Htail : Toks (if negb (m_pending_bytes m =? 0)
+                        then qp_with_tag 40 (qp_write_int32 (m_pending_bytes m)) else [])
+                       (if negb (m_pending_bytes m =? 0)
+                        then [(5, PVarint (sext32 (m_pending_bytes m)))] else [])).
+  { destruct (negb (m_pending_bytes m =? 0)); [|apply Toks_nil].
+    rewrite <- (app_nil_r (qp_with_tag 40 _)). unfold qp_write_int32.
+    tok_varint 5; [apply sext32_range; exact Hpb|]. apply Toks_nil. }
+  assert (Hrest : Toks (concat (map (fun s => qp_with_tag 26 (qp_write_nested (size_block s) (write_block s))) (m_payload m))
+                        ++ concat (map (fun s => qp_with_tag 34 (qp_write_nested (size_presence s) (write_presence s))) (m_presences m))
+                        ++ (if negb (m_pending_bytes m =? 0)
+                            then qp_with_tag 40 (qp_write_int32 (m_pending_bytes m)) else []))
+                       (map (fun b => (3, PBytes (write_block b))) (m_payload m)
+                        ++ map (fun p => (4, PBytes (write_presence p))) (m_presences m)
+                        ++ (if negb (m_pending_bytes m =? 0) then [(5, PVarint (sext32 (m_pending_bytes m)))] else []))).
+  { apply (Toks_repeated 3 26 size_block write_block); [reflexivity|lia|reflexivity| |].
+    - intros x Hx. rewrite Forall_forall in Hpl. destruct (Hpl x Hx) as (_ & _ & Hs).
+      rewrite C08_encode_no_panic_block. split; [reflexivity|]. apply two32_lt_64. assumption.
+    - apply (Toks_repeated 4 34 size_presence write_presence); [reflexivity|lia|reflexivity| |].
+      + intros x Hx. rewrite Forall_forall in Hpr. destruct (Hpr x Hx) as (_ & Hs).
+        rewrite C08_encode_no_panic_presence. split; [reflexivity|]. apply two32_lt_64. assumption.
+      + exact Htail. }
+  destruct (m_wantlist m) as [w|]; [|exact Hrest].
+  cbn [app]. destruct Hw as (Hes & Hsw).
+  unfold qp_write_nested at 1. rewrite <- (C08_encode_no_panic_wantlist w).
+  eapply Toks_cons; [|exact Hrest].
+  apply (ref_token_bytes 10 1); [reflexivity|lia|reflexivity|].
+  rewrite C08_encode_no_panic_wantlist. apply two32_lt_64. assumption.
+Qed.
+
+Lemma fold_blocks bs : Forall wf_block bs -> forall wl acc pr pb,
+  fold_opt ref_message_step (map (fun b => (3, PBytes (write_block b))) bs) (MkMessage wl acc pr pb)
+  = Some (MkMessage wl (acc ++ bs) pr pb).
+Proof.
+  induction 1 as [|b bs Hb Hbs IH]; intros wl acc pr pb; cbn [map fold_opt].
+  - rewrite app_nil_r. reflexivity.
+  - change (ref_message_step (MkMessage wl acc pr pb) (3, PBytes (write_block b)))
+      with (match ref_block (write_block b) with
+            | Some x => Some (MkMessage wl (acc ++ [x]) pr pb) | None => None end).
+    rewrite (ref_block_write b Hb). rewrite IH. rewrite <- app_assoc. reflexivity.
+Qed.
+
+Lemma fold_presences ps : Forall wf_presence ps -> forall wl pl acc pb,
+  fold_opt ref_message_step (map (fun p => (4, PBytes (write_presence p))) ps) (MkMessage wl pl acc pb)
+  = Some (MkMessage wl pl (acc ++ ps) pb).
+Proof.
+  induction 1 as [|p ps Hp Hps IH]; intros wl pl acc pb; cbn [map fold_opt].
+  - rewrite app_nil_r. reflexivity.
+  - change (ref_message_step (MkMessage wl pl acc pb) (4, PBytes (write_presence p)))
+      with (match ref_presence (write_presence p) with
+            | Some x => Some (MkMessage wl pl (acc ++ [x]) pb) | None => None end).
+    rewrite (ref_presence_write p Hp). rewrite IH. rewrite <- app_assoc. reflexivity.
+Qed.
+
+(* C11: what beetswap emits is a valid encoding of the value under the Bitswap 1.2.0 schema *)
+Theorem C11_emit_valid : forall m, wf_message m -> ref_decode (write_message m) = Some m.
+Proof.
+  intros m Hwf. unfold ref_decode. rewrite (Toks_tokenise _ _ (Toks_message m Hwf)).
+  destruct Hwf as (Hw & Hpl & Hpr & Hpb & Hsz).
+  destruct m as [wl pl pr pb]. unfold tokens_message.
+  cbn [m_wantlist m_payload m_presences m_pending_bytes] in *.
+  rewrite !fold_opt_app.
+  assert (H1 : exists m0, fold_opt ref_message_step
+                 (match wl with Some w => [(1, PBytes (write_wantlist w))] | None => [] end)
+                 default_message = Some m0 /\ m0 = MkMessage wl [] [] 0).
+  { destruct wl as [w|]; [|eexists; split; reflexivity]. cbn [fold_opt].
+    change (ref_message_step default_message (1, PBytes (write_wantlist w)))
+      with (match ref_wantlist (write_wantlist w) with
+            | Some x => Some (MkMessage (Some x) [] [] 0) | None => None end).
+    rewrite (ref_wantlist_write w Hw). eexists; split; reflexivity. }
+  destruct H1 as (m0 & H1 & ->).
+  match goal with |- match ?X with _ => _ end = _ =>
+    replace X with (Some (MkMessage wl [] [] 0)) by (symmetry; exact H1) end.
+  cbv beta iota. rewrite fold_opt_app. rewrite (fold_blocks _ Hpl).
+  rewrite fold_opt_app. rewrite (fold_presences _ Hpr). cbn [app].
+  destruct (pb =? 0) eqn:Ep; cbn [negb fold_opt].
+  - replace pb with 0 by lia. reflexivity.
+  - change (ref_message_step (MkMessage wl pl pr 0) (5, PVarint (sext32 pb)))
+      with (Some (MkMessage wl pl pr (ref_int32 (sext32 pb)))).
+    rewrite ref_int32_sext by exact Hpb. reflexivity.
+Qed.
+
+Lemma filter_map_none {A} (g : A -> token) (xs : list A) :
+  (forall x, is_wantlist_tok (g x) = false) -> filter is_wantlist_tok (map g xs) = [].
+Proof.
+  intros H. induction xs as [|x xs IH]; [reflexivity|]. cbn [map filter]. rewrite H. exact IH.
+Qed.
+
+Lemma write_message_in_class m : wf_message m -> in_class (write_message m).
+Proof.
+  intros Hwf. unfold in_class, in_classb, class_tokens.
+  rewrite (Toks_tokenise _ _ (Toks_message m Hwf)).
+  destruct Hwf as (Hw & Hpl & Hpr & Hpb & Hsz).
+  apply andb_true_iff. split; [apply andb_true_iff; split|].
+  - rewrite C08_encode_no_panic. unfold two64 in Hsz. lia.
+  - unfold tokens_message. rewrite !forallb_app. repeat (apply andb_true_iff; split).
+    + destruct (m_wantlist m) as [w|]; [|reflexivity]. cbn [forallb].
+      change (class_message_tok (1, PBytes (write_wantlist w)))
+        with ((len (write_wantlist w) <? ref_two32) && class_wantlist (write_wantlist w)).
+      rewrite (class_wantlist_write w Hw). rewrite C08_encode_no_panic_wantlist.
+      destruct Hw as (_ & Hsw). rewrite (ltb_two32 _ Hsw). reflexivity.
+    + apply forallb_map_toks. intros b Hb. rewrite Forall_forall in Hpl. pose proof (Hpl b Hb) as Hwf.
+      change (class_message_tok (3, PBytes (write_block b)))
+        with ((len (write_block b) <? ref_two32) && class_block (write_block b)).
+      rewrite (class_block_write b Hwf). rewrite C08_encode_no_panic_block.
+      destruct Hwf as (_ & _ & Hsb). rewrite (ltb_two32 _ Hsb). reflexivity.
+    + apply forallb_map_toks. intros p Hp. rewrite Forall_forall in Hpr. pose proof (Hpr p Hp) as Hwf.
+      change (class_message_tok (4, PBytes (write_presence p)))
+        with ((len (write_presence p) <? ref_two32) && class_presence (write_presence p)).
+      rewrite (class_presence_write p Hwf). rewrite C08_encode_no_panic_presence.
+      destruct Hwf as (_ & Hsp). rewrite (ltb_two32 _ Hsp). reflexivity.
+    + destruct (negb (m_pending_bytes m =? 0)); reflexivity.
+  - unfold tokens_message. rewrite !filter_app.
+    rewrite (filter_map_none (fun b => (3, PBytes (write_block b)))) by reflexivity.
+    rewrite (filter_map_none (fun p => (4, PBytes (write_presence p)))) by reflexivity.
+    destruct (m_wantlist m); destruct (negb (m_pending_bytes m =? 0)); reflexivity.
+Qed.
+
+(* C10 (body): the quick-protobuf reader, started on any array that begins with the body written for
+   a well-formed message, and told the body's length, returns exactly that message and stops exactly
+   at the end of the body - in both build profiles.  This is `parse_exact` of the framing layer. *)
+Theorem C10_body_roundtrip : forall chk m tail,
+  wf_message m ->
+  qp_read_message chk (write_message m ++ tail) (len (write_message m)) = ROk m (len (write_message m)).
+Proof.
+  intros chk m tail Hwf. unfold qp_read_message.
+  rewrite (Qp_refines_Ref (mode_of_chk chk) (write_message m) m tail
+             (C11_emit_valid m Hwf) (write_message_in_class m Hwf)).
+  reflexivity.
+Qed.
+
+(* ... and the instrumented run sees no overrun on such input *)
+Theorem C10_body_not_overrun : forall m tail,
+  wf_message m -> overrun_b (write_message m ++ tail) (len (write_message m)) = false.
+Proof.
+  intros m tail Hwf.
+  apply (in_class_not_overrun _ m); [apply C11_emit_valid|apply write_message_in_class]; assumption.
+Qed.
+
+(* non-vacuity: a message with every kind of field, negative int32 values included *)
+Definition ex_message : message :=
+  MkMessage (Some (MkWantlist [MkEntry [1;85;18;32;186] 1 false WTBlock true;
+                               MkEntry [1;2] 4294967295 true WTHave false;
+                               default_entry] true))
+            [MkBlock [1;85;18;32] [97;98;99]; default_block] [MkPresence [1;2;3] PDontHave]
+            4294967290.
+
+Example ex_message_wf : wf_message ex_message.
+Proof. apply wf_messageb_spec. vm_compute. reflexivity. Qed.
+
+Example C11_emit_valid_ex : ref_decode (write_message ex_message) = Some ex_message.
+Proof. vm_compute. reflexivity. Qed.
+
+Example C10_body_roundtrip_ex :
+  qp_read_message true (write_message ex_message ++ [1; 2; 3]) (len (write_message ex_message))
+  = ROk ex_message 75 /\
+  qp_read_message false (write_message ex_message ++ [1; 2; 3]) (len (write_message ex_message))
+  = ROk ex_message 75.
+Proof. vm_compute. split; reflexivity. Qed.
+
+(* a non-canonical encoding of the class: unknown fields of all four wire types, fields out of
+   order, an explicit default, a non-minimal varint, a ten-byte negative int32 *)
+Definition ex_noncanonical : bytes :=
+  [ 40; 250; 255; 255; 255; 255; 255; 255; 255; 255; 1;      (* pendingBytes = -6, ten bytes *)
+    120; 129; 0;                                              (* unknown field 15, varint, non-minimal 1 *)
+    26; 5; 18; 3; 97; 98; 99;                                 (* payload { data = "abc" } (no prefix) *)
+    121; 1; 2; 3; 4; 5; 6; 7; 8;                              (* unknown field 15, fixed64 *)
+    10; 10; 16; 0; 10; 6; 24; 0; 10; 2; 1; 2;                 (* wantlist { full = false (explicit); entry { cancel = false (explicit); block = 0102 } } *)
+    125; 1; 2; 3; 4;                                          (* unknown field 15, fixed32 *)
+    122; 2; 9; 9 ].                                           (* unknown field 15, length-delimited *)
+
+Example C11_accept_noncanonical_ex :
+  in_class ex_noncanonical /\
+  ref_decode ex_noncanonical
+  = Some (MkMessage (Some (MkWantlist [MkEntry [1; 2] 0 false WTBlock false] false))
+                    [MkBlock [] [97; 98; 99]] [] 4294967290).
+Proof. vm_compute. split; reflexivity. Qed.
